@@ -28,7 +28,7 @@ def run(ctx):
     ctx.tlc_mc("Swarm", "SPECIFICATION SSpec\nCONSTANTS\n  NP = %d\n  Ranks = {%s}\nINVARIANT PBestIsHistoryMin GBestIsMinPBest\n"
                "PROPERTY PBestMonotone GBestMonotone\nCHECK_DEADLOCK FALSE\n" % ((3, "1, 2, 3") if q else (4, "1, 2, 3, 4")),
                "mc-swarm", workers=4 if q else 10, timeout=3000)
-    runlib.run_templates(ctx, ["C18"], seeds=[ctx.seed, ctx.seed + 1, ctx.seed + 2] if q else list(range(ctx.seed, ctx.seed + 50)),
+    runlib.run_templates(ctx, ["C18"], seeds=[ctx.seed, ctx.seed + 1, ctx.seed + 2] if q else list(range(ctx.seed, ctx.seed + 14)),
                          iters=[0, 1, 6, 25] if q else [0, 1, 6, 25, 80], templates=["real_pso", "real_pso|evals", "real_pso|log4"], quick_grid=False)
     # harness-built PSO configurations: a second swarm under identifier A next to a default one, a scoped inner loop with
     # its own LessThanN inside the repair step, a swarm started after another phase filled the best-individual memory
